@@ -429,6 +429,7 @@ func (vc *VC) execTypeAssert(x *ssa.TypeAssert, pc string, st *State) {
 		if it.NumMethods() == 0 {
 			ok = not(eq(sx("i_dyn", v), "T_nil"))
 		} else {
+			vc.registerImplementers(at, it)
 			p := vc.enc.ImplPred(typeStr(at), it)
 			ok = sx(p, sx("i_dyn", v))
 		}
@@ -485,4 +486,40 @@ func isInitFunc(fn *ssa.Function) bool {
 		return true
 	}
 	return false
+}
+
+
+// registerImplementers: for an interface with unexported methods (implementable only in its own
+// package) make sure every implementing named type of that package has a type constant.
+func (vc *VC) registerImplementers(at types.Type, it *types.Interface) {
+	n, ok := at.(*types.Named)
+	if !ok || n.Obj().Pkg() == nil {
+		return
+	}
+	closed := false
+	for i := 0; i < it.NumMethods(); i++ {
+		if !it.Method(i).Exported() {
+			closed = true
+		}
+	}
+	if !closed {
+		return
+	}
+	sc := n.Obj().Pkg().Scope()
+	for _, name := range sc.Names() {
+		tn, ok := sc.Lookup(name).(*types.TypeName)
+		if !ok {
+			continue
+		}
+		t := tn.Type()
+		if _, isI := t.Underlying().(*types.Interface); isI {
+			continue
+		}
+		if types.Implements(t, it) {
+			vc.enc.TypeConst(t)
+		}
+		if pt := types.NewPointer(t); types.Implements(pt, it) {
+			vc.enc.TypeConst(pt)
+		}
+	}
 }
